@@ -108,6 +108,7 @@ def run(ctx):
                 r.violation(B, "apply_newline_style[%s] assigns %s" % (key, short(val)[-50:]),
                             "the text is not replaced by the converter matching the effective style", ["%s:%d" % (ap.file, ap.line)])
     original_text_source(ctx, "R08-c")
+    blank_line_clamp(ctx, "R08-d")
     # operand of the Auto detection at the only call site
     if f is not None:
         for c in f.calls():
@@ -186,3 +187,78 @@ def original_text_source(ctx, rid):
             r.violation(rid, "write_file: newline_style is not consulted for the choice of original text", str(effs),
                         ["%s:%d" % (f.file, f.line)])
     r.floor(rid, n, 3, "emitting paths of write_file")
+
+
+def blank_line_clamp(ctx, rid):
+    """R08-d: push_vertical_spaces never lets a run of newlines exceed blank_lines_upper_bound + 1 (relational numeric domain)"""
+    import linarith as la
+    p, r = ctx.p, ctx.r
+    r.rule(rid, "FmtVisitor::push_vertical_spaces: with o = newlines already at the end of the buffer, U = blank_lines_upper_bound, "
+                "L = blank_lines_lower_bound (L ≤ U assumed, all ≥ 0), on every path the count n' handed to \"\\n\".repeat satisfies "
+                "n' + o ≤ U + 1 or n' = 0 — decided per path by linear arithmetic over the branch conditions (Fourier–Motzkin "
+                "refutation of the negation); and the only text pushed is that repetition")
+    f = p.named("push_vertical_spaces", within="FmtVisitor")
+    if f is None:
+        r.undecidable(rid, "FmtVisitor::push_vertical_spaces not found")
+        return
+    PURE = ("blank_lines", "saturating_sub", "::min", "::max", "::chars", "::rev", "take_while", "::count", "trailing", "newline")
+    try:
+        paths = explore(f, is_effect=lambda c: c.name.endswith("push_str") or c.name.endswith("::repeat") or c.name.endswith("::push"),
+                        pure=lambda c: any(x in c.name for x in PURE), max_paths=20000, program=p, inline="auto")
+    except TooManyPaths as e:
+        r.undecidable(rid, str(e))
+        return
+    r.paths(rid, len(paths))
+    n_paths = 0
+    for path in paths:
+        if path.end != "ret":
+            continue
+        n_paths += 1
+        reps = [e for e in path.effects if e.kind == "call" and e.name.endswith("::repeat")]
+        pushes = [e for e in path.effects if e.kind == "call" and not e.name.endswith("::repeat")]
+        if len(reps) != 1 or len(pushes) != 1 or "repeat" not in vkey(pushes[0].args[-1]) or vkey(reps[0].args[0]) not in ('*"\n"', '"\n"'):
+            r.violation(rid, "push_vertical_spaces: pushes something other than one \"\\n\".repeat(n)",
+                        "effects on a path: %s" % [(short(e.name), [vkey(a)[:30] for a in e.args]) for e in path.effects][:4],
+                        ["%s:%d" % (f.file, f.line)])
+            continue
+        try:
+            res_alts = la.lin(reps[0].args[1])
+            cons = []
+            for k, v in path.decisions:
+                alts = la.decision_constraints(k, v)
+                if alts is not None:
+                    cons.append(alts)
+            forms = [fm for c, fm in res_alts] + [x for a in cons for alt in a for x in alt] + [x for c, fm in res_alts for x in c]
+            atoms = la.atoms_of(forms)
+            up = [a for a in atoms if "blank_lines_upper_bound" in a]
+            lo = [a for a in atoms if "blank_lines_lower_bound" in a]
+            off = [a for a in atoms if ".buffer" in a]
+            if len(up) > 1 or len(lo) > 1 or len(off) > 1:
+                r.undecidable(rid, "push_vertical_spaces: ambiguous atoms upper=%s lower=%s offset=%s" % (up, lo, off))
+                return
+            U = la.var(up[0]) if up else la.var("config.blank_lines_upper_bound")
+            o = la.var(off[0]) if off else la.const(0)
+            assume = []
+            if lo:
+                assume.append([[la._add(la.var(lo[0]), U, -1)]])            # L - U ≤ 0
+            bad = None
+            for c_res, R in res_alts:
+                # ¬goal:  U + 2 - R - o ≤ 0  ∧  1 - R ≤ 0
+                neg = [la._add(la._add(la._add(U, la.const(2)), R, -1), o, -1), la._add(la.const(1), R, -1)]
+                ok, wit = la.entails(cons + assume + [[c_res]], [neg], nonneg=sorted(atoms | la.atoms_of([U, o])))
+                if not ok:
+                    bad = (R, wit)
+                    break
+        except la.NonLinear as e:
+            r.undecidable(rid, "push_vertical_spaces: %s" % e)
+            return
+        key = "push_vertical_spaces[%s]" % ",".join("%s" % ("T" if v is True else "F" if v is False else variant_name(v)) for k, v in path.decisions)
+        r.instance(rid, key, "ok" if bad is None else "violation", "%s:%d" % (f.file, f.line), short(vkey(reps[0].args[1]))[:80])
+        if bad is not None:
+            r.violation(rid, "push_vertical_spaces: newline run can exceed blank_lines_upper_bound",
+                        "on the path with branch outcomes %s the count handed to \"\\n\".repeat is %s; together with the newlines already "
+                        "at the end of the buffer it is not bounded by blank_lines_upper_bound + 1 (satisfiable: %s)"
+                        % ([(short(k)[-50:], v) for k, v in path.decisions], short(vkey(reps[0].args[1]))[:90],
+                           "; ".join(la.show(x) for x in bad[1][-6:])),
+                        ["%s:%d" % (f.file, f.line)])
+    r.floor(rid, n_paths, 1, "returning paths of push_vertical_spaces")
